@@ -4,6 +4,9 @@ import CalicoVerif.Model.C04
   `new <0|1>`                                   fresh index, overlap suppression off/on
   `ipset <sid> <selId> <table27> <proto> <port|->`   UpdateIPSet
   `delipset <sid>`                              DeleteIPSet (+ consumer's OnIPSetRemoved)
+  `rule <name> <src> <notSrc> <dst> <notDst>` / `delrule <name>`   a policy rule fed to the REAL RuleScanner
+        (no effect here); the RuleScanner's OnIPSetActive / OnIPSetInactive calls follow as
+  `dipset …` (= `ipset`) / `ddelipset <sid>` (= `delipset`) lines
   `ep <w|h|n> <id> <labels|-> <nets|-> <ports|-> <parents|->`   OnUpdate(WEP/HEP/NetworkSet)
   `delep <id>` | `parent <pid> <labels|->` | `delparent <pid>`
 Selectors arrive as (id, truth table over the 27 assignments of labels a,b,c to
@@ -116,6 +119,16 @@ def step (st : Idx DSel) (line : String) : Idx DSel × String :=
   match words line with
   | ["new", a] =>
     if a == "0" then (Idx.new DSel false, "ok") else if a == "1" then (Idx.new DSel true, "ok") else (st, "bad-op")
+  | "rule" :: _ => (st, "ok")      -- RuleScanner input: its effect arrives as `dipset` / `ddelipset` lines
+  | "delrule" :: _ => (st, "ok")
+  | ["ddelipset", sid] => applyOp st (.deleteIPSet sid)
+  | ["dipset", sid, selId, table, proto, port, _rawExpr] =>
+    match proto.toNat? with
+    | some p =>
+      if table.length == 27 then
+        applyOp st (.updateIPSet sid { id := selId, table := table } p (if port == "-" then "" else port))
+      else (st, "bad-op")
+    | none => (st, "bad-op")
   | ["ipset", sid, selId, table, proto, port, _rawExpr] =>
     match proto.toNat? with
     | some p =>
